@@ -16,16 +16,21 @@ package main
 // can make a pattern match code that behaves differently from what the pattern describes.
 
 import (
+	"crypto/sha1"
 	_ "embed"
 	"encoding/json"
 	"fmt"
 	"go/ast"
 	"os"
 	"sort"
+	"strings"
 )
 
 //go:embed baseline_names.json
 var baselineJSON []byte
+
+//go:embed baseline_shapes.json
+var baselineShapesJSON []byte
 
 func funcKey(fd *ast.FuncDecl) string { return recvName(fd) + "." + fd.Name.Name }
 
@@ -69,6 +74,145 @@ func writeBaseline(path string) {
 	if err := os.WriteFile(path, append(b, '\n'), 0o644); err != nil {
 		fmt.Fprintln(os.Stderr, err)
 		os.Exit(2)
+	}
+	shapes := map[string]string{}
+	for _, f := range files {
+		for _, d := range f.Decls {
+			if fd, ok := d.(*ast.FuncDecl); ok && fd.Body != nil {
+				shapes[funcKey(fd)] = shapeOf(fd)
+			}
+		}
+	}
+	b, _ = json.MarshalIndent(shapes, "", " ")
+	sp := strings.TrimSuffix(path, "baseline_names.json") + "baseline_shapes.json"
+	if err := os.WriteFile(sp, append(b, '\n'), 0o644); err != nil {
+		fmt.Fprintln(os.Stderr, err)
+		os.Exit(2)
+	}
+}
+
+// shapeOf: a fingerprint of a function that does not depend on the names of variables, of the
+// function itself, or of the functions and methods it calls: node kinds, operators, literals and the
+// names of the fields it touches.
+func shapeOf(fd *ast.FuncDecl) string {
+	called := map[*ast.Ident]bool{}
+	ast.Inspect(fd, func(n ast.Node) bool {
+		if c, ok := n.(*ast.CallExpr); ok {
+			switch x := c.Fun.(type) {
+			case *ast.SelectorExpr:
+				called[x.Sel] = true
+			case *ast.Ident:
+				called[x] = true
+			}
+		}
+		return true
+	})
+	var sb strings.Builder
+	sels := map[*ast.Ident]bool{}
+	ast.Inspect(fd.Type, func(n ast.Node) bool {
+		if n != nil {
+			fmt.Fprintf(&sb, "%T;", n)
+		}
+		return true
+	})
+	ast.Inspect(fd.Body, func(n ast.Node) bool {
+		switch x := n.(type) {
+		case nil:
+			return true
+		case *ast.SelectorExpr:
+			sels[x.Sel] = true
+			sb.WriteString("Sel;")
+		case *ast.Ident:
+			if sels[x] && !called[x] {
+				sb.WriteString("." + x.Name + ";")
+			} else {
+				sb.WriteString("_;")
+			}
+		case *ast.BasicLit:
+			sb.WriteString(x.Value + ";")
+		case *ast.BinaryExpr:
+			sb.WriteString("B" + x.Op.String() + ";")
+		case *ast.UnaryExpr:
+			sb.WriteString("U" + x.Op.String() + ";")
+		case *ast.AssignStmt:
+			sb.WriteString("A" + x.Tok.String() + ";")
+		case *ast.IncDecStmt:
+			sb.WriteString("I" + x.Tok.String() + ";")
+		case *ast.BranchStmt:
+			sb.WriteString("Br" + x.Tok.String() + ";")
+		default:
+			fmt.Fprintf(&sb, "%T;", n)
+		}
+		return true
+	})
+	return fmt.Sprintf("%x", sha1.Sum([]byte(sb.String())))
+}
+
+// restoreFuncNames: an unexported function or method that was merely renamed (its shape is that of a
+// baseline function which no longer exists, on the same receiver, and nothing else matches) gets its
+// baseline name back, at its declaration and at its call sites.
+func restoreFuncNames() {
+	base := map[string]string{}
+	if err := json.Unmarshal(baselineShapesJSON, &base); err != nil {
+		return
+	}
+	cur := map[string]*ast.FuncDecl{}
+	names := map[string]int{}
+	for _, f := range files {
+		for _, d := range f.Decls {
+			if fd, ok := d.(*ast.FuncDecl); ok && fd.Body != nil {
+				cur[funcKey(fd)] = fd
+				names[fd.Name.Name]++
+			}
+		}
+	}
+	var missing []string
+	for k := range base {
+		if _, ok := cur[k]; !ok {
+			missing = append(missing, k)
+		}
+	}
+	sort.Strings(missing)
+	used := map[string]bool{}
+	for _, m := range missing {
+		recv := m[:strings.Index(m, ".")]
+		want := m[strings.Index(m, ".")+1:]
+		var cands []string
+		for k, fd := range cur {
+			if _, inBase := base[k]; inBase || used[k] || recvName(fd) != recv || ast.IsExported(fd.Name.Name) {
+				continue
+			}
+			if shapeOf(fd) == base[m] {
+				cands = append(cands, k)
+			}
+		}
+		if len(cands) != 1 || ast.IsExported(want) {
+			continue
+		}
+		fd := cur[cands[0]]
+		newName := fd.Name.Name
+		if names[newName] != 1 || names[want] != 0 {
+			continue // the new name (or the old one) also names something else: leave it alone
+		}
+		used[cands[0]] = true
+		fd.Name.Name = want
+		for _, f := range files {
+			ast.Inspect(f, func(n ast.Node) bool {
+				if c, ok := n.(*ast.CallExpr); ok {
+					switch x := c.Fun.(type) {
+					case *ast.SelectorExpr:
+						if recv != "" && x.Sel.Name == newName {
+							x.Sel.Name = want
+						}
+					case *ast.Ident:
+						if recv == "" && x.Name == newName && x.Obj == nil || recv == "" && x.Name == newName && x.Obj != nil && x.Obj.Kind == ast.Fun {
+							x.Name = want
+						}
+					}
+				}
+				return true
+			})
+		}
 	}
 }
 
